@@ -5,6 +5,7 @@ mod c04;
 mod c05;
 mod c06;
 mod c07;
+mod c08;
 mod c09;
 mod c10;
 mod c11;
@@ -33,6 +34,7 @@ fn main() {
         "c05" => c05::run(&args),
         "c06" => c06::run(&args),
         "c07" => c07::run(&args),
+        "c08" => c08::run(&args),
         "c09" => c09::run(&args),
         "c10" => c10::run(&args),
         "c11" => c11::run(&args),
